@@ -112,6 +112,40 @@ pub mod fs {
         world::with(|w| w.disk.rename(&a, &b))
     }
 
+    /// What `metadata` can tell about a simulated file.
+    #[derive(Clone, Debug)]
+    pub struct Metadata {
+        len: u64,
+        dir: bool,
+    }
+
+    impl Metadata {
+        pub fn len(&self) -> u64 {
+            self.len
+        }
+        pub fn is_file(&self) -> bool {
+            !self.dir
+        }
+        pub fn is_dir(&self) -> bool {
+            self.dir
+        }
+    }
+
+    pub async fn metadata(path: impl AsRef<Path>) -> io::Result<Metadata> {
+        maybe_yield().await;
+        let p = path.as_ref().to_string_lossy().to_string();
+        world::with(|w| {
+            let abs = w.disk.resolve(&p);
+            if let Some(l) = w.disk.len_of(&abs) {
+                Ok(Metadata { len: l, dir: false })
+            } else if w.disk.dirs.contains(&abs) {
+                Ok(Metadata { len: 0, dir: true })
+            } else {
+                Err(io::Error::new(io::ErrorKind::NotFound, "sim: not found"))
+            }
+        })
+    }
+
     pub async fn try_exists(path: impl AsRef<Path>) -> io::Result<bool> {
         maybe_yield().await;
         let p = path.as_ref().to_string_lossy().to_string();
